@@ -76,6 +76,18 @@ type GenRep struct {
 	// segment durations are unchanged). loadAsset rejects such an audio representation ("does not have (known)
 	// constant sample duration").
 	Jitter bool
+	// SegSampleDurs (video only; nil or one entry per segment, 0 = SampleDur): the common sample duration of the
+	// samples of segment k, i.e. a frame rate that changes between segments. With CompactTrun the value sits in
+	// tfhd.default_sample_duration of that segment only and overrides trex and whatever earlier segments said.
+	SegSampleDurs []uint32
+}
+
+// segSampleDur is the common sample duration of segment k.
+func (r GenRep) segSampleDur(k int) uint32 {
+	if r.Kind == "video" && k < len(r.SegSampleDurs) && r.SegSampleDurs[k] != 0 {
+		return r.SegSampleDurs[k]
+	}
+	return r.SampleDur
 }
 
 // GenAsset is a generated asset: <vodRoot>/<Name>/Manifest.mpd plus one directory per representation.
@@ -237,7 +249,7 @@ func (r GenRep) NSamples(k int) int {
 	case "stpp", "thumbs":
 		return 1
 	}
-	return int(r.SegDurs[k] / uint64(r.SampleDur))
+	return int(r.SegDurs[k] / uint64(r.segSampleDur(k)))
 }
 
 // FirstSample is the global index (0-based over the whole VoD track) of the first sample of segment k.
@@ -297,7 +309,7 @@ func (r GenRep) sampleDurAt(k, j int) uint32 {
 	case "stpp", "thumbs":
 		return uint32(r.SegDurs[k])
 	}
-	d := r.SampleDur
+	d := r.segSampleDur(k)
 	if r.Jitter && r.NSamples(k) >= 2 {
 		switch j {
 		case 0:
@@ -536,8 +548,8 @@ func (r GenRep) check() error {
 			return fmt.Errorf("assetgen: rep %s: SampleDur 0", r.ID)
 		}
 		for k, d := range r.SegDurs {
-			if d == 0 || d%uint64(r.SampleDur) != 0 {
-				return fmt.Errorf("assetgen: rep %s: segment %d duration %d is not a positive multiple of SampleDur %d", r.ID, k, d, r.SampleDur)
+			if d == 0 || d%uint64(r.segSampleDur(k)) != 0 {
+				return fmt.Errorf("assetgen: rep %s: segment %d duration %d is not a positive multiple of its sample duration %d", r.ID, k, d, r.segSampleDur(k))
 			}
 		}
 	case "stpp":
